@@ -439,6 +439,138 @@ def tailrec_compare(case, impl, model):
 
 
 # ------------------------------------------------------------------------------------------------
+# tailstmt: full statement lists (return collectors, several final assignments, non-tail statements)
+# ------------------------------------------------------------------------------------------------
+
+class StmtGen:
+    def __init__(self, rng, n):
+        self.rng, self.n, self.k = rng, n, 0
+
+    def fresh(self, pre):
+        self.k += 1
+        return f"{pre}{self.k}"
+
+    def operand(self, scope):
+        return str(self.rng.range(-2, 7)) if self.rng.chance(1, 4) else self.rng.pick(scope)
+
+    def prefix(self, scope, depth):
+        """Non-tail statements; returns (statements, extended scope)."""
+        r, out = self.rng, []
+        for _ in range(r.range(0, 2)):
+            k = r.below(10)
+            if k < 6:
+                x = self.fresh("x")
+                out.append(f"bin {x} {r.pick(OPS)} {self.operand(scope)} {self.operand(scope)}")
+                scope = scope + [x]
+            elif k < 8 and depth > 0:
+                c = self.operand(scope)
+                s1, sc1 = self.prefix(scope, depth - 1)
+                s2, sc2 = self.prefix(scope, depth - 1)
+                fin = []
+                names = []
+                for _ in range(r.range(0, 2)):
+                    y = self.fresh("y")
+                    fin.append(f"{y} {self.operand(sc1)} {self.operand(sc2)}")
+                    names.append(y)
+                out.append(f"if {c} {{ {' '.join(s1)} }} {{ {' '.join(s2)} }} {len(fin)} " + " ".join(fin))
+                scope = scope + names
+            else:              # non-tail self call (terminates: counter argument x900)
+                rc = self.fresh("c")
+                args = [self.operand(scope) for _ in range(self.n - 1)] + ["x900"]
+                out.append(f"call f0 {self.n} " + " ".join(args) + f" {rc}")
+                scope = scope + [rc]
+        return [o.strip() for o in out], scope
+
+    def tail(self, scope, depth, want_var):
+        """Statements ending the list, and the expression holding the list's value."""
+        r = self.rng
+        pre, scope = self.prefix(scope, 1)
+        k = r.below(10)
+        if depth <= 0 or k < 4:
+            if r.chance(3, 5):         # tail call
+                args = []
+                for i in range(self.n - 1):
+                    m = r.below(10)
+                    args.append(f"p{i}" if m < 4 else (r.pick([f"p{j}" for j in range(self.n - 1)]) if m < 7 else self.operand(scope)))
+                if want_var:
+                    rc = self.fresh("r")
+                    return pre + [f"call f0 {self.n} " + " ".join(args) + f" x900 {rc}"], rc
+                return pre + [f"call f0 {self.n} " + " ".join(args) + " x900 _"], str(r.range(0, 3))
+            return pre, self.operand(scope)
+        c = self.operand(scope)
+        s1, v1 = self.tail(scope, depth - 1, want_var)
+        s2, v2 = self.tail(scope, depth - 1, want_var)
+        fin, res = [], None
+        extra = r.range(0, 1)
+        pos = r.below(extra + 1)
+        for i in range(extra + 1):
+            if i == pos:
+                res = self.fresh("res")
+                fin.append(f"{res} {v1} {v2}")
+            else:
+                fin.append(f"{self.fresh('z')} {self.operand(scope)} {self.operand(scope)}")
+        if not want_var:   # unit-like: branch results are not carried (front-end shape)
+            fin = [f for f in fin if not f.startswith(res + " ")]
+            res = str(r.range(0, 3))
+        return pre + [f"if {c} {{ {' '.join(s1)} }} {{ {' '.join(s2)} }} {len(fin)} " + " ".join(fin)], res
+
+
+def tailstmt_case(rng):
+    n = rng.range(2, 4)
+    g = StmtGen(rng, n)
+    last = f"p{n - 1}"
+    scope = [f"p{i}" for i in range(n)] + ["x900"]
+    want_var = rng.chance(4, 5)
+    body, v = g.tail(scope, 2, want_var)
+    base = g.operand(scope[:-1])
+    res = "res0"
+    mir = (f"fn f0 {n} bin x901 le {last} 0 if x901 {{ }} {{ bin x900 sub {last} 1 " + " ".join(body) +
+           f" }} 1 {res} {base} {v} ret {res} end")
+    if not want_var:
+        # a function whose self calls drop the result returns the same literal on every path
+        # (front-end shape for unit-like functions); anything else is not produced by HIR lowering
+        mir = (f"fn f0 {n} bin x901 le {last} 0 if x901 {{ }} {{ bin x900 sub {last} 1 " + " ".join(body) +
+               f" }} 0 ret 0 end")
+    elif rng.chance(1, 6):    # no guard around it: the rewrite sees the list directly (may not terminate: timeouts tolerated)
+        mir = f"fn f0 {n} bin x900 sub {last} 1 " + " ".join(body) + f" ret {v} end"
+    args = [[rng.range(-3, 7) for _ in range(n - 1)] + [rng.range(0, 4)] for _ in range(3)]
+    a = ";".join(",".join(str(x) for x in v) for v in args)
+    return {"kind": "tailstmt", "line": f"tailstmt | {a} | {mir}"}
+
+
+def canon_temps(text):
+    import re
+    seen = {}
+
+    def sub(m):
+        t = m.group(0)
+        if t not in seen:
+            seen[t] = f"_T{len(seen)}"
+        return seen[t]
+    return re.sub(r"\b_t\d+\b", sub, text)
+
+
+def tailstmt_compare(case, impl, model):
+    if not impl.startswith("prog "):
+        return f"impl={impl[:300]}", None
+    parts = impl.split(" || ")
+    prog, verdict = parts[0], parts[1]
+    rewritten = " while " in prog
+    tie = None
+    if model == "norewrite":
+        if rewritten:
+            tie = "implementation rewrote the function, the model does not"
+    elif not model.startswith("prog "):
+        tie = f"model={model[:300]}"
+    elif not rewritten:
+        tie = "the model rewrites the function, the implementation does not"
+    elif canon_temps(" ".join(prog.split())) != canon_temps(" ".join(model.split())):
+        tie = f"rewritten program text differs: impl={canon_temps(prog)[:400]} model={canon_temps(model)[:400]}"
+    oracle = verdict if verdict.startswith("diff") else None
+    return tie, oracle
+
+
+# ------------------------------------------------------------------------------------------------
 # cpe: call graphs
 # ------------------------------------------------------------------------------------------------
 
@@ -1074,6 +1206,12 @@ def check_protocol_cases(ctx, cases, label, stats):
             tie, oracle = tailrec_compare(c, a, m)
             if " while " in a:
                 stats["tailrec_rewritten"] += 1
+        elif c["kind"] == "tailstmt":
+            tie, oracle = tailstmt_compare(c, a, m)
+            if " while " in a:
+                stats["tailstmt_rewritten"] += 1
+            if " cast " in a:
+                stats["tailstmt_snapshots"] += 1
         elif c["kind"] == "cpesem":
             tie, oracle = cpesem_compare(c, a, m)
             if m.startswith("ok") and any(x in ("U",) or x.startswith("C") for x in m.split(" ")[1].split(",")):
@@ -1115,7 +1253,7 @@ PROBE_F2 = ("class Main {\n  function swap(a: int, b: int, n: int): int = if n =
 def run(ctx):
     res = common.proof_gate(ctx)
     rng = ctx.rng
-    stats = {"search_rng": None, "layout": 0, "tailrec": 0, "cpe": 0, "cpesem": 0, "cpesem_eliminated": 0, "e2e": 0, "e2e_ok": 0, "known_hits": 0, "families": {},
+    stats = {"search_rng": None, "layout": 0, "tailrec": 0, "cpe": 0, "cpesem": 0, "cpesem_eliminated": 0, "tailstmt": 0, "tailstmt_rewritten": 0, "tailstmt_snapshots": 0, "e2e": 0, "e2e_ok": 0, "known_hits": 0, "families": {},
              "layout_unboxed": 0, "layout_conflating": 0, "tailrec_rewritten": 0, "no_node": False}
     try:
         common.build_exec()
@@ -1137,6 +1275,7 @@ def run(ctx):
     cases += [tailrec_case(rng.fork(), allow_backward=(i % 2 == 0)) for i in range(n_tail)]
     cases += [cpe_case(rng.fork(), rotate_bias=4) for _ in range(n_cpe)]
     cases += [cpesem_case(rng.fork()) for _ in range(n_cpe)]
+    cases += [tailstmt_case(rng.fork()) for _ in range(n_tail)]
     for i in range(0, len(cases), 400):
         check_protocol_cases(ctx, cases[i:i + 400], f"generated seed={ctx.seed}", stats)
         if ctx.violations:
@@ -1154,22 +1293,23 @@ def run(ctx):
             run_e2e(ctx, e2e[i:i + 60], f"generated seed={ctx.seed}", stats)
             if ctx.violations:
                 break
-    total = stats["layout"] + stats["tailrec"] + stats["cpe"] + stats["cpesem"] + stats["e2e"]
+    total = stats["layout"] + stats["tailrec"] + stats["cpe"] + stats["cpesem"] + stats["tailstmt"] + stats["e2e"]
     ctx.cov.update({
         "evaluations": total,
         "distinct_nontrivial": stats["layout_unboxed"] + stats["tailrec_rewritten"] + stats["e2e_ok"],
         "rule": "layout: random class systems (structs, recursive/mutually recursive/generic enums, Str/Vec/function-typed fields) "
                 "with a random demand order; tailrec: random if-else trees with self tail calls (in-place, permuted, literal "
-                "arguments) x 4 argument vectors; cpe: random call graphs (constant/varying call sites, in-place forwarding, "
+                "arguments) x 4 argument vectors; tailstmt: random statement lists (non-tail binaries/ifs/self calls, nested ifs with several final assignments, collector-less calls in unit-like functions) compared as program text with the real rewrite + before/after interpretation; cpe: random call graphs (constant/varying call sites, in-place forwarding, "
                 "rotation); e2e: 7 program families with expected output computed by the generator, run as wasm under Node 22. "
                 "non-trivial = layout case with at least one Unboxed variant + tailrec case that was rewritten into a loop + "
                 "e2e program whose wasm output matched",
         "samples": [cases[0]["line"][:300] if cases else "", cases[n_layout]["line"][:300] if len(cases) > n_layout else ""],
-        "traces_validated_against_impl": stats["layout"] + stats["tailrec"] + stats["cpe"] + stats["cpesem"],
+        "traces_validated_against_impl": stats["layout"] + stats["tailrec"] + stats["cpe"] + stats["cpesem"] + stats["tailstmt"],
         "histogram": {k: v for k, v in stats.items() if k != "search_rng"},
-        "pending": ["tailrec_equiv over the full MIR statement list (return-collector plumbing of try_rewrite…): only the "
-                    "if-else-tree kernel is proved", "semantic theorem for constant-parameter elimination (only the decision "
-                    "kernel is proved)", "lowerMatch_correct, Source.eval"]})
+        "pending": ["tailrec_equiv over full MIR statement lists: the rewrite incl. return-collector plumbing is modelled "
+                    "(Model/TailStmt.lean) and tied syntactically (tailstmt protocol), the equivalence theorem is proved only "
+                    "for the if-else-tree kernel", "constant-parameter elimination semantics for several mutually calling functions",
+                    "std map/set programs in the end-to-end leg"]})
     if stats["no_node"]:
         ctx.assumptions.append("Node >= 22 missing: end-to-end leg skipped, coverage reduced to the stage protocols")
     ctx.assumptions += ["runs hitting 32-bit overflow or division by zero are excluded by the property; generators avoid division",
